@@ -429,6 +429,40 @@ theorem c02_net_sound (i : Inst) (self : Nat) (ident : Nat → Nat) (evs : List 
     · apply hsound.2.2; rw [← hx2]; exact hr.1
   · simp at h
 
+/-- **what a server sends to itself is checked like everything else**: an element delivered from a frame the
+server sent to itself names a node the server itself hosts -/
+theorem c02_self_sent_names_own_node (i : Inst) (self : Nat) (ident : Nat → Nat) (evs : List Arrival)
+    (hs : ∀ a ∈ evs, ∃ f, a = .self f) :
+    ∀ d ∈ netRun i self ident (fun _ => []) evs, ∀ x ∈ d, x.1.server = self := by
+  intro d hd x hx
+  obtain ⟨_, _, a, ha, _, _, _, ho⟩ := c02_net_sound i self ident evs d hd x hx
+  obtain ⟨f, rfl⟩ := hs a ha
+  exact ho
+
+/-- **an instance a peer conjured cannot speak for its node**: a peer can make the server create an instance for
+ANY node of the tree (the destination token decides, `TransmitMsg` does not ask whether the server hosts the
+node); when that instance — honest protocol code — sends to a node the server does host, the message names the
+conjured node as its sender.  If that node is hosted elsewhere, nothing of it reaches a handler or channel. -/
+theorem c02_conjured_instance_cannot_speak_for_others (i : Inst) (self : Nat) (ident : Nat → Nat) (j ty v : Nat)
+    (h : ∀ n ∈ i.nodes, n.id = j → n.server ≠ self) :
+    ∀ d ∈ netRun i self ident (fun _ => []) [localSend j ty v], d = [] := by
+  intro d hd
+  cases d with
+  | nil => rfl
+  | cons x rest =>
+    exfalso
+    obtain ⟨hm, hid, a, ha, hsnd, _, _, ho⟩ :=
+      c02_net_sound i self ident [localSend j ty v] (x :: rest) hd x (List.mem_cons_self ..)
+    simp only [List.mem_singleton] at ha
+    subst ha
+    simp only [localSend, Arrival.frame, sendToTreeNode, Option.some.injEq] at hsnd
+    exact h x.1 hm (hid.trans hsnd.symm) ho
+
+/-- … and it is delivered when the server does host the node (a tree in which a server hosts several nodes) -/
+example : netRun { nodes := [⟨10, 0⟩, ⟨11, 1⟩, ⟨12, 0⟩], parent := none, nChildren := 2, agg := fun _ => false } 0 id
+      (fun _ => []) [localSend 12 3 7, localSend 11 3 8]
+    = [[(⟨12, 0⟩, ⟨3, 12, some 0, 7⟩)]] := by decide
+
 /-- what the frames say about their origin is not an input: the deliveries are the same for every content of
 the frames' own identity field -/
 theorem c02_frame_identity_ignored (i : Inst) (self : Nat) (ident : Nat → Nat) (q : Queues) (evs : List Arrival)
